@@ -297,6 +297,10 @@ def step_problem(kind, nparams, nobj, fail_p, seed):
             else:
                 s = sum(x)
                 c = [sum((t - 0.3 * j) ** 2 for t in x) + j * s for j in range(nobj)]
+                if kind == "offset":
+                    # large cost values on a 1e-4 grid: designs that differ by 1e-4 .. 1e-2 at magnitude 1e7 (relative 1e-11 .. 1e-9)
+                    # are different costs - dominance, ranking and elitism must treat them as such
+                    c = [1e7 + round(0.02 * t, 4) for t in c]
             self.calls.append((ind, v, "o", list(c)))
             return c
 
@@ -482,6 +486,13 @@ def worst_key_order(rr, it, pos, fronts, crowds):
     return pos + sorted(j for _, j in worst.values())
 
 
+def crowd_close(a, b, cfg):
+    """Comparison band for crowding distances.  The stored signed costs are the doubles nearest to the 7-decimal roundings
+    (the model rounds exactly); at the magnitude 1e7 of the 'offset' problems one ulp is 2e-9, and a gap or range of
+    1e-4 .. 1e-1 between such values turns it into up to 1e-4 relative error of gap / range."""
+    return close(a, b, rel=1e-3 if cfg.get("kind") == "offset" else 1e-9)
+
+
 def step_has_ties(rec):
     """Two members of the merged population share a value in some objective: crowding distances (and therefore the
     choice among equally ranked candidates) then depend on the order in which the population is held - which the
@@ -526,7 +537,7 @@ def check_step_answer(rr, it, ans, pos, surv, final):
             return ("retry", worst_key_order(rr, it, pos, fronts, crowds))
         rk = sorted((s.features["front_number"], -s.features["crowding_distance"]) for s in surv)
         mk = sorted((fronts[j], -crowds[j]) for j in r if j < nmerged)
-        if len(rk) == len(mk) and all(a[0] == b[0] and close(a[1], b[1]) for a, b in zip(rk, mk)):
+        if len(rk) == len(mk) and all(a[0] == b[0] and crowd_close(a[1], b[1], rr["cfg"]) for a, b in zip(rk, mk)):
             return ("near-tie", None)
         if step_has_ties(rec) and len(rk) == len(mk) and [a[0] for a in rk] == [b[0] for b in mk]:
             # tied objective values: which of the equally ranked candidates survive is not fixed by the property;
@@ -541,7 +552,7 @@ def check_step_answer(rr, it, ans, pos, surv, final):
         if sv.features["front_number"] != fronts[j]:
             return ("step-front", head + "survivor %r carries front number %r, the model's sorting of the merged population "
                     "gives %d" % (list(sv.vector), sv.features["front_number"], fronts[j]))
-        if not close(float(sv.features["crowding_distance"]), crowds[j]) and not step_has_ties(rec):
+        if not crowd_close(float(sv.features["crowding_distance"]), crowds[j], rr["cfg"]) and not step_has_ties(rec):
             return ("step-crowding", head + "survivor %r carries crowding distance %r, the model gives %r" % (
                 list(sv.vector), sv.features["crowding_distance"], crowds[j]))
     return None
@@ -590,14 +601,14 @@ def check_nsga2_run_answer(rr, ans):
         if str(ind.population_id) != m[0]:
             return ("run-tag", head + "recorded design #%d carries generation tag %r, the model run tags it %s" % (k, ind.population_id, m[0]))
         if tied_run and (rvec(ind.vector) != m[1] or ind.features["front_number"] != int(m[2])
-                         or not close(float(ind.features["crowding_distance"]), parse_crowd(m[3]))):
+                         or not crowd_close(float(ind.features["crowding_distance"]), parse_crowd(m[3]), rr["cfg"])):
             # tied objective values somewhere in the run: another (equally valid) tie-break makes the whole-run replay
             # follow different survivors from there on; the per-iteration replays from the recorded parents decide
             return ("diverged", None)
         if rvec(ind.vector) != m[1]:
             return ("run-design", head + "recorded design #%d (generation %r) is %r, the model run records %r there" % (
                 k, ind.population_id, list(ind.vector), [float(Fr(t)) for t in m[1].split(",")]))
-        if ind.features["front_number"] != int(m[2]) or not close(float(ind.features["crowding_distance"]), parse_crowd(m[3])):
+        if ind.features["front_number"] != int(m[2]) or not crowd_close(float(ind.features["crowding_distance"]), parse_crowd(m[3]), rr["cfg"]):
             return ("run-features", head + "recorded design #%d (generation %r) has front number %r / crowding distance %r, the model "
                     "run %s / %s" % (k, ind.population_id, ind.features["front_number"], ind.features["crowding_distance"], m[2], m[3]))
     return None
@@ -677,7 +688,7 @@ def step_cfgs(ctx):
         out.append({"algo": algo, "N": rng.choice([2, 3, 4, 5, 8] if ctx.quick else [2, 3, 4, 5, 8, 13]),
                     "G": rng.choice([1, 2, 3, 4] if algo == "nsga2" else [1, 2, 3]),
                     "nparams": rng.randint(1, 3), "nobj": rng.choice([1, 2, 2, 3]),
-                    "kind": rng.choice(["smooth", "smooth", "plateau", "constrained"]),
+                    "kind": rng.choice(["smooth", "smooth", "plateau", "constrained", "offset"]),
                     "fail_p": rng.choice([0, 0, 0.15, 0.3]), "lowvar": rng.random() < 0.3, "seed": rng.randrange(10 ** 6)})
     return out
 
